@@ -21,17 +21,76 @@ abbrev Trace := List (Rec × Obs)
 def opsOf : Rec → List (Op String)
   | .op o => [o]
   | .afteri k i k2 p => [.after k i, .append k2 p]
+  | .iter k i _ _ script => .after k i :: script
   | .stat => []
   | .concurrent => []
 
 /-- The API calls made before position `j`. -/
 def hist (tr : Trace) (j : Nat) : List (Op String) := (tr.take j).flatMap fun p => opsOf p.1
 
-/-- The `After(k, i)` a record asks, if any. -/
-def queryOf : Rec → Option (Key × Int)
-  | .op (.after k i) => some (k, i)
-  | .afteri k i _ _ => some (k, i)
-  | _ => none
+/-- A COMPLETE `After(k, i)` (live context, drained) made by a record after `off` of the record's API
+calls, with what it observed. -/
+structure Query where
+  off : Nat
+  k : Key
+  i : Int
+  obs : Obs
+
+/-- The `After`s issued from inside an iteration (`off` calls of the record come before the script). -/
+def nestedQ : Nat → List (Op String) → List AObs → List Query
+  | _, [], _ => []
+  | off, op :: ops, os =>
+    match op with
+    | .after k i =>
+      match os with
+      | [] => []
+      | o :: os' => ⟨off, k, i, o.toObs⟩ :: nestedQ (off + 1) ops os'
+    | _ => nestedQ (off + 1) ops os
+
+/-- The complete `After`s of a record. -/
+def queries : Rec → Obs → List Query
+  | .op o, obs => match o with
+    | .after k i => [⟨0, k, i, obs⟩]
+    | _ => []
+  | .afteri k i _ _, obs => [⟨0, k, i, obs⟩]
+  | .iter _ _ _ _ script, obs => match obs with
+    | .iter _ _ nested => nestedQ 1 script nested
+    | _ => []
+  | _, _ => []
+
+/-- The API calls made before the query at offset `off` of the record at position `j`. -/
+def histQ (tr : Trace) (j : Nat) (r : Rec) (off : Nat) : List (Op String) := hist tr j ++ (opsOf r).take off
+
+/-- The ITERATION of an `iter` record: stream, index, context, where the consumer breaks; how it ended and
+what it delivered before. -/
+structure IterQ where
+  k : Key
+  i : Int
+  cm : CtxMode
+  stop : Option Nat
+  t : Term
+  items : List String
+
+def iterOf : Rec → Obs → Option IterQ
+  | .iter k i cm stop _, obs => match obs with
+    | .iter t items _ => some ⟨k, i, cm, stop, t, items⟩
+    | _ => none
+  | _, _ => none
+
+def isAfter : Op String → Bool
+  | .after _ _ => true
+  | _ => false
+
+def countAfter (script : List (Op String)) : Nat := (script.filter isAfter).length
+
+/-- The outcomes of an iteration the property allows, given `exp` = the payloads after the index as of its
+start: complete and exact; broken by the consumer after exactly the first `stop`; the purge error at once;
+a context error after a prefix.  (Ending normally after a proper prefix is NOT among them.) -/
+def Allowed (exp : List String) (stop : Option Nat) (t : Term) (items : List String) : Prop :=
+  (t = .fin ∧ items = exp) ∨
+  (t = .broke ∧ ∃ n, stop = some n ∧ 1 ≤ n ∧ n ≤ exp.length ∧ items = exp.take n) ∨
+  (t = .purged ∧ items = []) ∨
+  (t = .ctx ∧ items <+: exp)
 
 def allowStep (a : Nat) : Op String → Nat
   | .append _ d => psz d
@@ -51,22 +110,57 @@ def cfgMax (ops : List (Op String)) : Option Nat := ops.foldl cfgStep none
 
 /-! ## The property clauses, as predicates on traces -/
 
-/-- An `After` on a stream that does not exist reports the unknown stream. -/
+/-- An `After` on a stream that does not exist reports the unknown stream (an iteration of it delivers
+nothing and ends with that error — or with the context's). -/
 def P_unknown_reported (tr : Trace) : Prop :=
-  ∀ j r obs k i, tr[j]? = some (r, obs) → queryOf r = some (k, i) → -1 ≤ i →
-    specLog k (hist tr j) = none → obs = .unknown
+  (∀ j r obs q, tr[j]? = some (r, obs) → q ∈ queries r obs → -1 ≤ q.i →
+    specLog q.k (histQ tr j r q.off) = none → q.obs = .unknown) ∧
+  (∀ j r obs iq, tr[j]? = some (r, obs) → iterOf r obs = some iq → iq.t ≠ .locked → -1 ≤ iq.i →
+    specLog iq.k (hist tr j) = none → iq.items = [] ∧ (iq.t = .unknown ∨ iq.t = .ctx))
 
 /-- "returns exactly the payloads appended to that stream after that index, in append order, or an
-events-purged error … never a partial or gapped sequence". -/
+events-purged error … never a partial or gapped sequence": a complete `After` answers the purge error or
+exactly the log after the index; an iteration ends in one of the `Allowed` ways. -/
 def P_exact_or_purged (tr : Trace) : Prop :=
-  ∀ j r obs k i log, tr[j]? = some (r, obs) → queryOf r = some (k, i) → -1 ≤ i →
-    specLog k (hist tr j) = some log → obs = .purged ∨ obs = .items (log.drop (i + 1).toNat)
+  (∀ j r obs q log, tr[j]? = some (r, obs) → q ∈ queries r obs → -1 ≤ q.i →
+    specLog q.k (histQ tr j r q.off) = some log → q.obs = .purged ∨ q.obs = .items (log.drop (q.i + 1).toNat)) ∧
+  (∀ j r obs iq log, tr[j]? = some (r, obs) → iterOf r obs = some iq → iq.t ≠ .locked → -1 ≤ iq.i →
+    specLog iq.k (hist tr j) = some log → Allowed (log.drop (iq.i + 1).toNat) iq.stop iq.t iq.items)
 
 /-- "an events-purged error if any of them has been evicted": the purge error only if some payload
 lies after the index. -/
 def P_purged_only_if_evicted (tr : Trace) : Prop :=
-  ∀ j r obs k i log, tr[j]? = some (r, obs) → queryOf r = some (k, i) → -1 ≤ i →
-    specLog k (hist tr j) = some log → obs = .purged → (i + 1).toNat < log.length
+  (∀ j r obs q log, tr[j]? = some (r, obs) → q ∈ queries r obs → -1 ≤ q.i →
+    specLog q.k (histQ tr j r q.off) = some log → q.obs = .purged → (q.i + 1).toNat < log.length) ∧
+  (∀ j r obs iq log, tr[j]? = some (r, obs) → iterOf r obs = some iq → iq.t ≠ .locked → -1 ≤ iq.i →
+    specLog iq.k (hist tr j) = some log → iq.t = .purged → (iq.i + 1).toNat < log.length)
+
+/-- **after_iteration_complete_or_error**, on the observed trace: an iteration that ended WITHOUT an
+error and was not broken by its consumer delivered everything — a prefix of the payloads after the
+index is the whole of them ("it never returns a partial … sequence"). -/
+def P_never_silently_short (tr : Trace) : Prop :=
+  ∀ j r obs iq log, tr[j]? = some (r, obs) → iterOf r obs = some iq → -1 ≤ iq.i →
+    specLog iq.k (hist tr j) = some log → iq.t = .fin → iq.items <+: log.drop (iq.i + 1).toNat →
+    iq.items = log.drop (iq.i + 1).toNat
+
+/-- A context error is yielded only once the context is done: the record cancels it (lets its deadline
+pass) in the body of the `c`-th item, so at least `c` items were delivered before. -/
+def P_ctx_error_only_if_done (tr : Trace) : Prop :=
+  ∀ (j : Nat) r obs iq, tr[j]? = some (r, obs) → iterOf r obs = some iq → -1 ≤ iq.i → iq.t = .ctx →
+    ∃ c, iq.cm.point = some c ∧ c ≤ iq.items.length
+
+/-- The iterator delivers outside the store's lock (on its private snapshot). -/
+def P_delivery_lock_free (tr : Trace) : Prop :=
+  ∀ (j : Nat) r obs iq, tr[j]? = some (r, obs) → iterOf r obs = some iq → iq.t ≠ .locked
+
+/-- An `iter` record is answered with an iteration outcome and one observation per `After` of its script. -/
+def IterReadable : Rec → Obs → Prop
+  | .iter _ _ _ _ script, obs =>
+    obs = .panic ∨ ∃ t items nested, obs = .iter t items nested ∧ (t = .locked ∨ nested.length = countAfter script)
+  | _, _ => True
+
+def P_iter_readable (tr : Trace) : Prop :=
+  ∀ (j : Nat) r obs, tr[j]? = some (r, obs) → IterReadable r obs
 
 /-- "Retained bytes never exceed the configured maximum by more than the most recent item". -/
 def P_bytes_bound (tr : Trace) : Prop :=
@@ -76,13 +170,16 @@ def P_bytes_bound (tr : Trace) : Prop :=
 def P_stat_readable (tr : Trace) : Prop :=
   ∀ (j : Nat) obs, tr[j]? = some (Rec.stat, obs) → ∃ n m r, obs = Obs.stat n m r
 
-/-- "all operations are safe under concurrent use": after a concurrent run the byte count equals the retained data. -/
+/-- "all operations are safe under concurrent use": the harness's verdict on a concurrent run — the byte count
+equals the retained data afterwards, and every `After` of a goroutine on the stream only it appends to was
+the purge error or exactly what it had appended after the index. -/
 def P_concurrent_consistent (tr : Trace) : Prop :=
   ∀ (j : Nat) obs, tr[j]? = some (Rec.concurrent, obs) → obs = Obs.consistent
 
-/-- No exported method panics. -/
+/-- No exported method panics (neither the record's own calls nor an `After` issued from inside an iteration). -/
 def P_no_panic (tr : Trace) : Prop :=
-  ∀ (j : Nat) r obs, tr[j]? = some (r, obs) → opsOf r ≠ [] → obs ≠ Obs.panic
+  ∀ (j : Nat) r obs, tr[j]? = some (r, obs) →
+    (opsOf r ≠ [] → obs ≠ Obs.panic) ∧ ∀ q ∈ queries r obs, q.obs ≠ Obs.panic
 
 def P_of : Clause → Trace → Prop
   | .afterUnknown => P_unknown_reported
@@ -92,6 +189,10 @@ def P_of : Clause → Trace → Prop
   | .badStat => P_stat_readable
   | .concurrent => P_concurrent_consistent
   | .panicked => P_no_panic
+  | .iterShort => P_never_silently_short
+  | .ctxErrLive => P_ctx_error_only_if_done
+  | .iterLocked => P_delivery_lock_free
+  | .badIter => P_iter_readable
 
 /-! ## The monitor's state is a function of the history -/
 
@@ -201,6 +302,12 @@ theorem runMonFrom_none : ∀ (tr : Trace) (m : MState) (i : Nat), runMonFrom m 
 
 /-! ## What it takes for a clause to be reported on a record -/
 
+/-- The monitor's log of a stream after `ops` more calls past position `j` is the abstract log of the history. -/
+theorem spec_atQ (tr : Trace) (j : Nat) (ops : List (Op String)) (k : Key) :
+    (ops.foldl bookOp (stateAfter {} (tr.take j))).spec.lookup k = specLog k (hist tr j ++ ops) := by
+  rw [stateAfter_hist, ← List.foldl_append, fold_spec]
+  rfl
+
 theorem afterClause_some {m : MState} {k : Key} {i : Int} {obs : Obs} {cl : Clause}
     (h : afterClause m k i obs = some cl) :
     -1 ≤ i ∧
@@ -231,36 +338,28 @@ theorem afterClause_some {m : MState} {k : Key} {i : Int} {obs : Obs} {cl : Clau
         · cases h
         · cases h; exact .inr (.inr ⟨log, rfl, rfl, hp, by assumption⟩)
 
-/-- A report on a record, read. -/
-theorem monStep_some {m : MState} {r : Rec} {obs : Obs} {cl : Clause} (h : (monStep m r obs).2 = some cl) :
-    (cl = .panicked ∧ opsOf r ≠ [] ∧ obs = .panic) ∨
-    (∃ k i, queryOf r = some (k, i) ∧ afterClause m k i obs = some cl) ∨
-    (r = .stat ∧ statClause m obs = some cl) ∨
-    (r = .concurrent ∧ cl = .concurrent ∧ obs ≠ .consistent) := by
-  cases r with
-  | op o =>
-    simp only [monStep, opClause] at h
-    split at h
-    · cases h; exact .inl ⟨rfl, by simp [opsOf], by assumption⟩
-    · cases o <;> first | cases h | exact .inr (.inl ⟨_, _, rfl, h⟩)
-  | afteri k i k2 p =>
-    simp only [monStep, opClause] at h
-    split at h
-    · cases h; exact .inl ⟨rfl, by simp [opsOf], by assumption⟩
-    · exact .inr (.inl ⟨k, i, rfl, h⟩)
-  | stat => exact .inr (.inr (.inl ⟨rfl, h⟩))
-  | concurrent =>
-    simp only [monStep] at h
-    split at h
-    · cases h
-    · cases h; exact .inr (.inr (.inr ⟨rfl, rfl, by assumption⟩))
-
 theorem afterClause_kind {m : MState} {k : Key} {i : Int} {obs : Obs} {cl : Clause}
     (h : afterClause m k i obs = some cl) : cl = .afterUnknown ∨ cl = .afterPurgedNothing ∨ cl = .afterWrong := by
   rcases (afterClause_some h).2 with ⟨h, _⟩ | ⟨_, h, _⟩ | ⟨_, h, _⟩
   · exact .inl h
   · exact .inr (.inl h)
   · exact .inr (.inr h)
+
+/-- A complete `After`, judged: a panic, or the `After` clause. -/
+theorem opClause_after_some {m : MState} {k : Key} {i : Int} {obs : Obs} {cl : Clause}
+    (h : opClause m (.after k i) obs = some cl) :
+    (cl = .panicked ∧ obs = .panic) ∨ afterClause m k i obs = some cl := by
+  simp only [opClause] at h
+  split at h
+  · cases h; exact .inl ⟨rfl, by assumption⟩
+  · exact .inr h
+
+theorem opClause_after_none {m : MState} {k : Key} {i : Int} {obs : Obs}
+    (h : opClause m (.after k i) obs = none) : obs ≠ .panic ∧ afterClause m k i obs = none := by
+  simp only [opClause] at h
+  split at h
+  · cases h
+  · exact ⟨by assumption, h⟩
 
 theorem statClause_some {m : MState} {obs : Obs} {cl : Clause} (h : statClause m obs = some cl) :
     (cl = .badStat ∧ ¬ ∃ n mx r, obs = .stat n mx r) ∨
@@ -273,59 +372,498 @@ theorem statClause_some {m : MState} {obs : Obs} {cl : Clause} (h : statClause m
     · cases h; exact .inr ⟨n, mx, r, rfl, rfl, by assumption⟩
   | _ => simp only [statClause] at h; cases h; exact .inl ⟨rfl, by rintro ⟨_, _, _, h⟩; cases h⟩
 
+theorem isPrefixOf_iff {a b : List String} : a.isPrefixOf b = true ↔ a <+: b := List.isPrefixOf_iff_prefix
+
+/-- The iteration clause, read. -/
+theorem iterClause_some {m : MState} {k : Key} {i : Int} {cm : CtxMode} {stop : Option Nat} {t : Term}
+    {items : List String} {cl : Clause} (h : iterClause m k i cm stop t items = some cl) :
+    (cl = .iterLocked ∧ t = .locked) ∨
+    (t ≠ .locked ∧ -1 ≤ i ∧
+      ((cl = .ctxErrLive ∧ t = .ctx ∧ ¬ ∃ c, cm.point = some c ∧ c ≤ items.length) ∨
+       (cl = .afterUnknown ∧ m.spec.lookup k = none ∧ ¬ (items = [] ∧ (t = .unknown ∨ t = .ctx))) ∨
+       (∃ log, m.spec.lookup k = some log ∧
+          ((cl = .iterShort ∧ t = .fin ∧ items <+: log.drop (i + 1).toNat ∧ items ≠ log.drop (i + 1).toNat) ∨
+           (cl = .afterPurgedNothing ∧ t = .purged ∧ log.drop (i + 1).toNat = []) ∨
+           (cl = .afterWrong ∧ ¬ Allowed (log.drop (i + 1).toNat) stop t items))))) := by
+  simp only [iterClause] at h
+  split at h
+  · cases h; exact .inl ⟨rfl, by assumption⟩
+  · rename_i hnl
+    split at h
+    · cases h
+    · rename_i hi
+      refine .inr ⟨hnl, by omega, ?_⟩
+      cases hl : m.spec.lookup k with
+      | none =>
+        rw [hl] at h; simp only [] at h
+        split at h
+        · rename_i hc
+          cases hp : cm.point with
+          | none =>
+            rw [hp] at h; cases h
+            exact .inl ⟨rfl, hc, by rintro ⟨c, h1, _⟩; cases h1⟩
+          | some c =>
+            rw [hp] at h; simp only [] at h
+            split at h
+            · split at h
+              · cases h
+              · rename_i hne
+                cases h; exact .inr (.inl ⟨rfl, rfl, fun hx => hne hx.1⟩)
+            · rename_i hle
+              cases h
+              exact .inl ⟨rfl, hc, by rintro ⟨c', h1, h2⟩; cases h1; exact hle h2⟩
+        · rename_i hc
+          split at h
+          · cases h
+          · rename_i hu
+            cases h
+            refine .inr (.inl ⟨rfl, rfl, fun hx => ?_⟩)
+            rcases hx.2 with h1 | h1
+            · exact hu ⟨h1, hx.1⟩
+            · exact hc h1
+      | some log =>
+        rw [hl] at h; simp only [] at h
+        cases t with
+        | locked => exact absurd rfl hnl
+        | fin =>
+          simp only [] at h
+          split at h
+          · cases h
+          · rename_i hne
+            split at h
+            · rename_i hpre
+              cases h; exact .inr (.inr ⟨log, rfl, .inl ⟨rfl, rfl, isPrefixOf_iff.1 hpre, hne⟩⟩)
+            · cases h
+              refine .inr (.inr ⟨log, rfl, .inr (.inr ⟨rfl, ?_⟩)⟩)
+              rintro (⟨_, he⟩ | ⟨hc, _⟩ | ⟨hc, _⟩ | ⟨hc, _⟩)
+              · exact hne he
+              · cases hc
+              · cases hc
+              · cases hc
+        | broke =>
+          simp only [] at h
+          refine .inr (.inr ⟨log, rfl, .inr (.inr ?_)⟩)
+          cases stop with
+          | none =>
+            cases h
+            refine ⟨rfl, ?_⟩
+            rintro (⟨hc, _⟩ | ⟨_, n, hs, _⟩ | ⟨hc, _⟩ | ⟨hc, _⟩)
+            · cases hc
+            · cases hs
+            · cases hc
+            · cases hc
+          | some n =>
+            simp only [] at h
+            split at h
+            · cases h
+            · rename_i hn
+              cases h
+              refine ⟨rfl, ?_⟩
+              rintro (⟨hc, _⟩ | ⟨_, n', hs, h1, h2, h3⟩ | ⟨hc, _⟩ | ⟨hc, _⟩)
+              · cases hc
+              · cases hs; exact hn ⟨h1, h2, h3⟩
+              · cases hc
+              · cases hc
+        | purged =>
+          simp only [] at h
+          split at h
+          · split at h
+            · rename_i he
+              cases h; exact .inr (.inr ⟨log, rfl, .inr (.inl ⟨rfl, rfl, List.isEmpty_iff.1 he⟩)⟩)
+            · cases h
+          · rename_i hne
+            cases h
+            refine .inr (.inr ⟨log, rfl, .inr (.inr ⟨rfl, ?_⟩)⟩)
+            rintro (⟨hc, _⟩ | ⟨hc, _⟩ | ⟨_, he⟩ | ⟨hc, _⟩)
+            · cases hc
+            · cases hc
+            · exact hne he
+            · cases hc
+        | ctx =>
+          simp only [] at h
+          cases hp : cm.point with
+          | none =>
+            rw [hp] at h; cases h
+            exact .inl ⟨rfl, rfl, by rintro ⟨c, h1, _⟩; cases h1⟩
+          | some c =>
+            rw [hp] at h; simp only [] at h
+            split at h
+            · split at h
+              · cases h
+              · rename_i hpre
+                cases h
+                refine .inr (.inr ⟨log, rfl, .inr (.inr ⟨rfl, ?_⟩)⟩)
+                rintro (⟨hc, _⟩ | ⟨hc, _⟩ | ⟨hc, _⟩ | ⟨_, hx⟩)
+                · cases hc
+                · cases hc
+                · cases hc
+                · exact hpre (isPrefixOf_iff.2 hx)
+            · rename_i hle
+              cases h
+              exact .inl ⟨rfl, rfl, by rintro ⟨c', h1, h2⟩; cases h1; exact hle h2⟩
+        | unknown =>
+          cases h
+          exact .inr (.inr ⟨log, rfl, .inr (.inr ⟨rfl, by rintro (⟨hc, _⟩ | ⟨hc, _⟩ | ⟨hc, _⟩ | ⟨hc, _⟩) <;> cases hc⟩)⟩)
+        | error =>
+          cases h
+          exact .inr (.inr ⟨log, rfl, .inr (.inr ⟨rfl, by rintro (⟨hc, _⟩ | ⟨hc, _⟩ | ⟨hc, _⟩ | ⟨hc, _⟩) <;> cases hc⟩)⟩)
+        | goesOn =>
+          cases h
+          exact .inr (.inr ⟨log, rfl, .inr (.inr ⟨rfl, by rintro (⟨hc, _⟩ | ⟨hc, _⟩ | ⟨hc, _⟩ | ⟨hc, _⟩) <;> cases hc⟩)⟩)
+
+theorem iterClause_kind {m : MState} {k : Key} {i : Int} {cm : CtxMode} {stop : Option Nat} {t : Term}
+    {items : List String} {cl : Clause} (h : iterClause m k i cm stop t items = some cl) :
+    cl = .iterLocked ∨ cl = .ctxErrLive ∨ cl = .afterUnknown ∨ cl = .iterShort ∨ cl = .afterPurgedNothing ∨
+    cl = .afterWrong := by
+  rcases iterClause_some h with ⟨h, _⟩ | ⟨_, _, ⟨h, _⟩ | ⟨h, _⟩ | ⟨_, _, ⟨h, _⟩ | ⟨h, _⟩ | ⟨h, _⟩⟩⟩
+  · exact .inl h
+  · exact .inr (.inl h)
+  · exact .inr (.inr (.inl h))
+  · exact .inr (.inr (.inr (.inl h)))
+  · exact .inr (.inr (.inr (.inr (.inl h))))
+  · exact .inr (.inr (.inr (.inr (.inr h))))
+
+theorem countAfter_cons_after (k : Key) (i : Int) (ops : List (Op String)) :
+    countAfter (.after k i :: ops) = countAfter ops + 1 := by
+  have : isAfter (.after k i) = true := rfl
+  simp [countAfter, List.filter_cons, this]
+
+/-- The `After`s of a script, judged: a count mismatch, or a report on one of them at ITS bookkeeping
+(`pre`: the record's calls before the script). -/
+theorem nestedClause_some (m0 : MState) : ∀ (script pre : List (Op String)) (nested : List AObs) (cl : Clause),
+    nestedClause (pre.foldl bookOp m0) script nested = some cl →
+    (cl = .badIter ∧ nested.length ≠ countAfter script) ∨
+    ∃ q, q ∈ nestedQ pre.length script nested ∧
+      opClause (((pre ++ script).take q.off).foldl bookOp m0) (.after q.k q.i) q.obs = some cl := by
+  intro script
+  induction script with
+  | nil =>
+    intro pre nested cl h
+    cases nested with
+    | nil => cases h
+    | cons o os => simp only [nestedClause] at h; cases h; exact .inl ⟨rfl, by simp [countAfter]⟩
+  | cons op ops ih =>
+    intro pre nested cl h
+    have hstep : ∀ (nested' : List AObs), nestedClause (bookOp (pre.foldl bookOp m0) op) ops nested' = some cl →
+        (cl = .badIter ∧ nested'.length ≠ countAfter ops) ∨
+        ∃ q, q ∈ nestedQ (pre.length + 1) ops nested' ∧
+          opClause (((pre ++ op :: ops).take q.off).foldl bookOp m0) (.after q.k q.i) q.obs = some cl := by
+      intro nested' h'
+      have := ih (pre ++ [op]) nested' cl (by simpa only [List.foldl_append, List.foldl_cons, List.foldl_nil] using h')
+      simpa only [List.length_append, List.length_cons, List.length_nil, List.append_assoc, List.cons_append,
+        List.nil_append, Nat.zero_add] using this
+    cases op with
+    | after k i =>
+      cases nested with
+      | nil =>
+        simp only [nestedClause] at h; cases h
+        exact .inl ⟨rfl, by simp [countAfter_cons_after]⟩
+      | cons o os =>
+        simp only [nestedClause] at h
+        cases hc : opClause (pre.foldl bookOp m0) (.after k i) o.toObs with
+        | some cl' =>
+          rw [hc] at h; simp only [Option.some.injEq] at h; subst h
+          refine .inr ⟨⟨pre.length, k, i, o.toObs⟩, by simp [nestedQ], ?_⟩
+          simpa using hc
+        | none =>
+          rw [hc] at h; simp only [] at h
+          rcases hstep os h with ⟨h1, h2⟩ | ⟨q, hq, hcl⟩
+          · exact .inl ⟨h1, by simp only [List.length_cons, countAfter_cons_after]; omega⟩
+          · exact .inr ⟨q, by simp only [nestedQ]; exact List.mem_cons_of_mem _ hq, hcl⟩
+    | «open» k => simp only [nestedClause] at h; simpa only [nestedQ, countAfter, List.filter, isAfter] using hstep nested h
+    | append k d => simp only [nestedClause] at h; simpa only [nestedQ, countAfter, List.filter, isAfter] using hstep nested h
+    | setMax n => simp only [nestedClause] at h; simpa only [nestedQ, countAfter, List.filter, isAfter] using hstep nested h
+    | closed sess => simp only [nestedClause] at h; simpa only [nestedQ, countAfter, List.filter, isAfter] using hstep nested h
+    | maxBytes => simp only [nestedClause] at h; simpa only [nestedQ, countAfter, List.filter, isAfter] using hstep nested h
+
+theorem nestedClause_none (m0 : MState) : ∀ (script pre : List (Op String)) (nested : List AObs),
+    nestedClause (pre.foldl bookOp m0) script nested = none →
+    nested.length = countAfter script ∧
+    ∀ q, q ∈ nestedQ pre.length script nested →
+      opClause (((pre ++ script).take q.off).foldl bookOp m0) (.after q.k q.i) q.obs = none := by
+  intro script
+  induction script with
+  | nil =>
+    intro pre nested h
+    cases nested with
+    | nil => exact ⟨rfl, fun q hq => by simp [nestedQ] at hq⟩
+    | cons o os => simp only [nestedClause] at h; cases h
+  | cons op ops ih =>
+    intro pre nested h
+    have hstep : ∀ (nested' : List AObs), nestedClause (bookOp (pre.foldl bookOp m0) op) ops nested' = none →
+        nested'.length = countAfter ops ∧
+        ∀ q, q ∈ nestedQ (pre.length + 1) ops nested' →
+          opClause (((pre ++ op :: ops).take q.off).foldl bookOp m0) (.after q.k q.i) q.obs = none := by
+      intro nested' h'
+      have := ih (pre ++ [op]) nested' (by simpa only [List.foldl_append, List.foldl_cons, List.foldl_nil] using h')
+      simpa only [List.length_append, List.length_cons, List.length_nil, List.append_assoc, List.cons_append,
+        List.nil_append, Nat.zero_add] using this
+    cases op with
+    | after k i =>
+      cases nested with
+      | nil => simp only [nestedClause] at h; cases h
+      | cons o os =>
+        simp only [nestedClause] at h
+        cases hc : opClause (pre.foldl bookOp m0) (.after k i) o.toObs with
+        | some cl' => rw [hc] at h; cases h
+        | none =>
+          rw [hc] at h; simp only [] at h
+          obtain ⟨h1, h2⟩ := hstep os h
+          refine ⟨by simp only [List.length_cons, countAfter_cons_after, h1], ?_⟩
+          intro q hq
+          simp only [nestedQ, List.mem_cons] at hq
+          rcases hq with rfl | hq
+          · simpa using hc
+          · exact h2 q hq
+    | «open» k => simp only [nestedClause] at h; simpa only [nestedQ, countAfter, List.filter, isAfter] using hstep nested h
+    | append k d => simp only [nestedClause] at h; simpa only [nestedQ, countAfter, List.filter, isAfter] using hstep nested h
+    | setMax n => simp only [nestedClause] at h; simpa only [nestedQ, countAfter, List.filter, isAfter] using hstep nested h
+    | closed sess => simp only [nestedClause] at h; simpa only [nestedQ, countAfter, List.filter, isAfter] using hstep nested h
+    | maxBytes => simp only [nestedClause] at h; simpa only [nestedQ, countAfter, List.filter, isAfter] using hstep nested h
+
+/-- A report on a record, read. -/
+theorem monStep_some {m : MState} {r : Rec} {obs : Obs} {cl : Clause} (h : (monStep m r obs).2 = some cl) :
+    (cl = .panicked ∧ opsOf r ≠ [] ∧ obs = .panic) ∨
+    (∃ q, q ∈ queries r obs ∧
+      opClause (((opsOf r).take q.off).foldl bookOp m) (.after q.k q.i) q.obs = some cl) ∨
+    (∃ iq, iterOf r obs = some iq ∧ iterClause m iq.k iq.i iq.cm iq.stop iq.t iq.items = some cl) ∨
+    (r = .stat ∧ statClause m obs = some cl) ∨
+    (r = .concurrent ∧ cl = .concurrent ∧ obs ≠ .consistent) ∨
+    (cl = .badIter ∧ ¬ IterReadable r obs) := by
+  cases r with
+  | op o =>
+    cases o with
+    | after k i => exact .inr (.inl ⟨⟨0, k, i, obs⟩, by simp [queries], h⟩)
+    | «open» k =>
+      simp only [monStep, opClause] at h
+      split at h
+      · cases h; exact .inl ⟨rfl, by simp [opsOf], by assumption⟩
+      · cases h
+    | append k d =>
+      simp only [monStep, opClause] at h
+      split at h
+      · cases h; exact .inl ⟨rfl, by simp [opsOf], by assumption⟩
+      · cases h
+    | setMax n =>
+      simp only [monStep, opClause] at h
+      split at h
+      · cases h; exact .inl ⟨rfl, by simp [opsOf], by assumption⟩
+      · cases h
+    | closed sess =>
+      simp only [monStep, opClause] at h
+      split at h
+      · cases h; exact .inl ⟨rfl, by simp [opsOf], by assumption⟩
+      · cases h
+    | maxBytes =>
+      simp only [monStep, opClause] at h
+      split at h
+      · cases h; exact .inl ⟨rfl, by simp [opsOf], by assumption⟩
+      · cases h
+  | afteri k i k2 p => exact .inr (.inl ⟨⟨0, k, i, obs⟩, by simp [queries], h⟩)
+  | iter k i cm stop script =>
+    simp only [monStep] at h
+    cases obs with
+    | panic => cases h; exact .inl ⟨rfl, by simp [opsOf], rfl⟩
+    | iter t items nested =>
+      simp only [] at h
+      cases hc : iterClause m k i cm stop t items with
+      | some cl' =>
+        rw [hc] at h; simp only [Option.some.injEq] at h; subst h
+        exact .inr (.inr (.inl ⟨⟨k, i, cm, stop, t, items⟩, rfl, hc⟩))
+      | none =>
+        rw [hc] at h; simp only [] at h
+        rcases nestedClause_some m script [.after k i] nested cl h with ⟨h1, h2⟩ | ⟨q, hq, hcl⟩
+        · refine .inr (.inr (.inr (.inr (.inr ⟨h1, ?_⟩))))
+          rintro (hx | ⟨t', items', nested', hx, hy⟩)
+          · cases hx
+          · cases hx
+            rcases hy with hy | hy
+            · subst hy; simp [iterClause] at hc
+            · exact h2 hy
+        · exact .inr (.inl ⟨q, hq, hcl⟩)
+    | ok => cases h; exact .inr (.inr (.inr (.inr (.inr ⟨rfl, by rintro (hx | ⟨_, _, _, hx, _⟩) <;> cases hx⟩))))
+    | err => cases h; exact .inr (.inr (.inr (.inr (.inr ⟨rfl, by rintro (hx | ⟨_, _, _, hx, _⟩) <;> cases hx⟩))))
+    | items l => cases h; exact .inr (.inr (.inr (.inr (.inr ⟨rfl, by rintro (hx | ⟨_, _, _, hx, _⟩) <;> cases hx⟩))))
+    | purged => cases h; exact .inr (.inr (.inr (.inr (.inr ⟨rfl, by rintro (hx | ⟨_, _, _, hx, _⟩) <;> cases hx⟩))))
+    | unknown => cases h; exact .inr (.inr (.inr (.inr (.inr ⟨rfl, by rintro (hx | ⟨_, _, _, hx, _⟩) <;> cases hx⟩))))
+    | partialThenPurged => cases h; exact .inr (.inr (.inr (.inr (.inr ⟨rfl, by rintro (hx | ⟨_, _, _, hx, _⟩) <;> cases hx⟩))))
+    | partialThenError => cases h; exact .inr (.inr (.inr (.inr (.inr ⟨rfl, by rintro (hx | ⟨_, _, _, hx, _⟩) <;> cases hx⟩))))
+    | num n => cases h; exact .inr (.inr (.inr (.inr (.inr ⟨rfl, by rintro (hx | ⟨_, _, _, hx, _⟩) <;> cases hx⟩))))
+    | stat a b c => cases h; exact .inr (.inr (.inr (.inr (.inr ⟨rfl, by rintro (hx | ⟨_, _, _, hx, _⟩) <;> cases hx⟩))))
+    | consistent => cases h; exact .inr (.inr (.inr (.inr (.inr ⟨rfl, by rintro (hx | ⟨_, _, _, hx, _⟩) <;> cases hx⟩))))
+    | other x => cases h; exact .inr (.inr (.inr (.inr (.inr ⟨rfl, by rintro (hx | ⟨_, _, _, hx, _⟩) <;> cases hx⟩))))
+  | stat => exact .inr (.inr (.inr (.inl ⟨rfl, h⟩)))
+  | concurrent =>
+    simp only [monStep] at h
+    split at h
+    · cases h
+    · cases h; exact .inr (.inr (.inr (.inr (.inl ⟨rfl, rfl, by assumption⟩))))
+
+/-- The same, with the kinds of clause each source can report. -/
+theorem monStep_kinds {m : MState} {r : Rec} {obs : Obs} {cl : Clause} (h : (monStep m r obs).2 = some cl) :
+    (cl = .panicked ∧ ((opsOf r ≠ [] ∧ obs = .panic) ∨ ∃ q, q ∈ queries r obs ∧ q.obs = .panic)) ∨
+    (∃ q, q ∈ queries r obs ∧ afterClause (((opsOf r).take q.off).foldl bookOp m) q.k q.i q.obs = some cl) ∨
+    (∃ iq, iterOf r obs = some iq ∧ iterClause m iq.k iq.i iq.cm iq.stop iq.t iq.items = some cl) ∨
+    (r = .stat ∧ statClause m obs = some cl) ∨
+    (r = .concurrent ∧ cl = .concurrent ∧ obs ≠ .consistent) ∨
+    (cl = .badIter ∧ ¬ IterReadable r obs) := by
+  rcases monStep_some h with ⟨h1, h2, h3⟩ | ⟨q, hq, hc⟩ | h | h | h | h
+  · exact .inl ⟨h1, .inl ⟨h2, h3⟩⟩
+  · rcases opClause_after_some hc with ⟨h1, h2⟩ | h1
+    · exact .inl ⟨h1, .inr ⟨q, hq, h2⟩⟩
+    · exact .inr (.inl ⟨q, hq, h1⟩)
+  · exact .inr (.inr (.inl h))
+  · exact .inr (.inr (.inr (.inl h)))
+  · exact .inr (.inr (.inr (.inr (.inl h))))
+  · exact .inr (.inr (.inr (.inr (.inr h))))
+
 /-! ## Clause soundness -/
 
 theorem sound_afterUnknown (tr : Trace) (j : Nat) (h : FiresAt tr j .afterUnknown) : ¬ P_unknown_reported tr := by
   obtain ⟨r, obs, hj, hf⟩ := h
-  rcases monStep_some hf with ⟨hc, _⟩ | ⟨k, i, hq, ha⟩ | ⟨_, hs⟩ | ⟨_, hc, _⟩
+  rcases monStep_kinds hf with ⟨hc, _⟩ | ⟨q, hq, ha⟩ | ⟨iq, hiq, hic⟩ | ⟨_, hs⟩ | ⟨_, hc, _⟩ | ⟨hc, _⟩
   · cases hc
   · obtain ⟨hi, hcase⟩ := afterClause_some ha
     rcases hcase with ⟨_, hl, hne⟩ | ⟨_, hc, _⟩ | ⟨_, hc, _⟩
     · intro hP
-      rw [(state_at tr j).1 k] at hl
-      exact hne (hP j r obs k i hj hq hi hl)
+      rw [spec_atQ] at hl
+      exact hne (hP.1 j r obs q hj hq hi hl)
+    · cases hc
+    · cases hc
+  · rcases iterClause_some hic with ⟨hc, _⟩ | ⟨hnl, hi, ⟨hc, _⟩ | ⟨_, hl, hn⟩ | ⟨log, _, ⟨hc, _⟩ | ⟨hc, _⟩ | ⟨hc, _⟩⟩⟩
+    · cases hc
+    · cases hc
+    · intro hP
+      rw [(state_at tr j).1 iq.k] at hl
+      exact hn (hP.2 j r obs iq hj hiq hnl hi hl)
+    · cases hc
     · cases hc
     · cases hc
   · rcases statClause_some hs with ⟨hc, _⟩ | ⟨_, _, _, hc, _⟩ <;> cases hc
   · cases hc
+  · cases hc
 
 theorem sound_afterWrong (tr : Trace) (j : Nat) (h : FiresAt tr j .afterWrong) : ¬ P_exact_or_purged tr := by
   obtain ⟨r, obs, hj, hf⟩ := h
-  rcases monStep_some hf with ⟨hc, _⟩ | ⟨k, i, hq, ha⟩ | ⟨_, hs⟩ | ⟨_, hc, _⟩
+  rcases monStep_kinds hf with ⟨hc, _⟩ | ⟨q, hq, ha⟩ | ⟨iq, hiq, hic⟩ | ⟨_, hs⟩ | ⟨_, hc, _⟩ | ⟨hc, _⟩
   · cases hc
   · obtain ⟨hi, hcase⟩ := afterClause_some ha
     rcases hcase with ⟨hc, _⟩ | ⟨_, hc, _⟩ | ⟨log, _, hl, hn1, hn2⟩
     · cases hc
     · cases hc
     · intro hP
-      rw [(state_at tr j).1 k] at hl
-      rcases hP j r obs k i log hj hq hi hl with h1 | h1
+      rw [spec_atQ] at hl
+      rcases hP.1 j r obs q log hj hq hi hl with h1 | h1
       · exact hn1 h1
       · exact hn2 h1
+  · rcases iterClause_some hic with ⟨hc, _⟩ | ⟨hnl, hi, ⟨hc, _⟩ | ⟨hc, _⟩ | ⟨log, hl, ⟨hc, _⟩ | ⟨hc, _⟩ | ⟨_, hn⟩⟩⟩
+    · cases hc
+    · cases hc
+    · cases hc
+    · cases hc
+    · cases hc
+    · intro hP
+      rw [(state_at tr j).1 iq.k] at hl
+      exact hn (hP.2 j r obs iq log hj hiq hnl hi hl)
   · rcases statClause_some hs with ⟨hc, _⟩ | ⟨_, _, _, hc, _⟩ <;> cases hc
+  · cases hc
   · cases hc
 
 theorem sound_afterPurgedNothing (tr : Trace) (j : Nat) (h : FiresAt tr j .afterPurgedNothing) :
     ¬ P_purged_only_if_evicted tr := by
   obtain ⟨r, obs, hj, hf⟩ := h
-  rcases monStep_some hf with ⟨hc, _⟩ | ⟨k, i, hq, ha⟩ | ⟨_, hs⟩ | ⟨_, hc, _⟩
+  rcases monStep_kinds hf with ⟨hc, _⟩ | ⟨q, hq, ha⟩ | ⟨iq, hiq, hic⟩ | ⟨_, hs⟩ | ⟨_, hc, _⟩ | ⟨hc, _⟩
   · cases hc
   · obtain ⟨hi, hcase⟩ := afterClause_some ha
     rcases hcase with ⟨hc, _⟩ | ⟨log, _, hl, hp, hd⟩ | ⟨_, hc, _⟩
     · cases hc
     · intro hP
-      rw [(state_at tr j).1 k] at hl
-      have := hP j r obs k i log hj hq hi hl hp
+      rw [spec_atQ] at hl
+      have := hP.1 j r obs q log hj hq hi hl hp
+      rw [List.drop_eq_nil_iff] at hd; omega
+    · cases hc
+  · rcases iterClause_some hic with ⟨hc, _⟩ | ⟨hnl, hi, ⟨hc, _⟩ | ⟨hc, _⟩ | ⟨log, hl, ⟨hc, _⟩ | ⟨_, ht, hd⟩ | ⟨hc, _⟩⟩⟩
+    · cases hc
+    · cases hc
+    · cases hc
+    · cases hc
+    · intro hP
+      rw [(state_at tr j).1 iq.k] at hl
+      have := hP.2 j r obs iq log hj hiq hnl hi hl ht
       rw [List.drop_eq_nil_iff] at hd; omega
     · cases hc
   · rcases statClause_some hs with ⟨hc, _⟩ | ⟨_, _, _, hc, _⟩ <;> cases hc
   · cases hc
+  · cases hc
+
+/-- **The C20-m12 clause**: the run reports `iterShort` only on a trace on which an iteration ended
+normally after a proper prefix of the payloads after its index. -/
+theorem sound_iterShort (tr : Trace) (j : Nat) (h : FiresAt tr j .iterShort) : ¬ P_never_silently_short tr := by
+  obtain ⟨r, obs, hj, hf⟩ := h
+  rcases monStep_kinds hf with ⟨hc, _⟩ | ⟨q, _, ha⟩ | ⟨iq, hiq, hic⟩ | ⟨_, hs⟩ | ⟨_, hc, _⟩ | ⟨hc, _⟩
+  · cases hc
+  · rcases afterClause_kind ha with hc | hc | hc <;> cases hc
+  · rcases iterClause_some hic with ⟨hc, _⟩ | ⟨hnl, hi, ⟨hc, _⟩ | ⟨hc, _⟩ | ⟨log, hl, ⟨_, ht, hpre, hne⟩ | ⟨hc, _⟩ | ⟨hc, _⟩⟩⟩
+    · cases hc
+    · cases hc
+    · cases hc
+    · intro hP
+      rw [(state_at tr j).1 iq.k] at hl
+      exact hne (hP j r obs iq log hj hiq hi hl ht hpre)
+    · cases hc
+    · cases hc
+  · rcases statClause_some hs with ⟨hc, _⟩ | ⟨_, _, _, hc, _⟩ <;> cases hc
+  · cases hc
+  · cases hc
+
+theorem sound_ctxErrLive (tr : Trace) (j : Nat) (h : FiresAt tr j .ctxErrLive) : ¬ P_ctx_error_only_if_done tr := by
+  obtain ⟨r, obs, hj, hf⟩ := h
+  rcases monStep_kinds hf with ⟨hc, _⟩ | ⟨q, _, ha⟩ | ⟨iq, hiq, hic⟩ | ⟨_, hs⟩ | ⟨_, hc, _⟩ | ⟨hc, _⟩
+  · cases hc
+  · rcases afterClause_kind ha with hc | hc | hc <;> cases hc
+  · rcases iterClause_some hic with ⟨hc, _⟩ | ⟨hnl, hi, ⟨_, ht, hn⟩ | ⟨hc, _⟩ | ⟨log, hl, ⟨hc, _⟩ | ⟨hc, _⟩ | ⟨hc, _⟩⟩⟩
+    · cases hc
+    · intro hP; exact hn (hP j r obs iq hj hiq hi ht)
+    · cases hc
+    · cases hc
+    · cases hc
+    · cases hc
+  · rcases statClause_some hs with ⟨hc, _⟩ | ⟨_, _, _, hc, _⟩ <;> cases hc
+  · cases hc
+  · cases hc
+
+theorem sound_iterLocked (tr : Trace) (j : Nat) (h : FiresAt tr j .iterLocked) : ¬ P_delivery_lock_free tr := by
+  obtain ⟨r, obs, hj, hf⟩ := h
+  rcases monStep_kinds hf with ⟨hc, _⟩ | ⟨q, _, ha⟩ | ⟨iq, hiq, hic⟩ | ⟨_, hs⟩ | ⟨_, hc, _⟩ | ⟨hc, _⟩
+  · cases hc
+  · rcases afterClause_kind ha with hc | hc | hc <;> cases hc
+  · rcases iterClause_some hic with ⟨_, ht⟩ | ⟨hnl, hi, ⟨hc, _⟩ | ⟨hc, _⟩ | ⟨log, hl, ⟨hc, _⟩ | ⟨hc, _⟩ | ⟨hc, _⟩⟩⟩
+    · intro hP; exact hP j r obs iq hj hiq ht
+    · cases hc
+    · cases hc
+    · cases hc
+    · cases hc
+    · cases hc
+  · rcases statClause_some hs with ⟨hc, _⟩ | ⟨_, _, _, hc, _⟩ <;> cases hc
+  · cases hc
+  · cases hc
+
+theorem sound_badIter (tr : Trace) (j : Nat) (h : FiresAt tr j .badIter) : ¬ P_iter_readable tr := by
+  obtain ⟨r, obs, hj, hf⟩ := h
+  rcases monStep_kinds hf with ⟨hc, _⟩ | ⟨q, _, ha⟩ | ⟨iq, hiq, hic⟩ | ⟨_, hs⟩ | ⟨_, hc, _⟩ | ⟨_, hn⟩
+  · cases hc
+  · rcases afterClause_kind ha with hc | hc | hc <;> cases hc
+  · rcases iterClause_kind hic with hc | hc | hc | hc | hc | hc <;> cases hc
+  · rcases statClause_some hs with ⟨hc, _⟩ | ⟨_, _, _, hc, _⟩ <;> cases hc
+  · cases hc
+  · intro hP; exact hn (hP j r obs hj)
 
 theorem sound_bytesBound (tr : Trace) (j : Nat) (h : FiresAt tr j .bytesBound) : ¬ P_bytes_bound tr := by
   obtain ⟨r, obs, hj, hf⟩ := h
-  rcases monStep_some hf with ⟨hc, _⟩ | ⟨k, i, _, ha⟩ | ⟨hr, hs⟩ | ⟨_, hc, _⟩
+  rcases monStep_kinds hf with ⟨hc, _⟩ | ⟨q, _, ha⟩ | ⟨iq, hiq, hic⟩ | ⟨hr, hs⟩ | ⟨_, hc, _⟩ | ⟨hc, _⟩
   · cases hc
   · rcases afterClause_kind ha with hc | hc | hc <;> cases hc
+  · rcases iterClause_kind hic with hc | hc | hc | hc | hc | hc <;> cases hc
   · rcases statClause_some hs with ⟨hc, _⟩ | ⟨n, mx, rr, _, ho, hn⟩
     · cases hc
     · intro hP
@@ -333,31 +871,39 @@ theorem sound_bytesBound (tr : Trace) (j : Nat) (h : FiresAt tr j .bytesBound) :
       rw [(state_at tr j).2.1, (state_at tr j).2.2] at hn
       exact hn (hP j n mx rr hj)
   · cases hc
+  · cases hc
 
 theorem sound_badStat (tr : Trace) (j : Nat) (h : FiresAt tr j .badStat) : ¬ P_stat_readable tr := by
   obtain ⟨r, obs, hj, hf⟩ := h
-  rcases monStep_some hf with ⟨hc, _⟩ | ⟨k, i, _, ha⟩ | ⟨hr, hs⟩ | ⟨_, hc, _⟩
+  rcases monStep_kinds hf with ⟨hc, _⟩ | ⟨q, _, ha⟩ | ⟨iq, hiq, hic⟩ | ⟨hr, hs⟩ | ⟨_, hc, _⟩ | ⟨hc, _⟩
   · cases hc
   · rcases afterClause_kind ha with hc | hc | hc <;> cases hc
+  · rcases iterClause_kind hic with hc | hc | hc | hc | hc | hc <;> cases hc
   · rcases statClause_some hs with ⟨_, hn⟩ | ⟨_, _, _, hc, _⟩
     · intro hP; subst hr; exact hn (hP j obs hj)
     · cases hc
   · cases hc
+  · cases hc
 
 theorem sound_concurrent (tr : Trace) (j : Nat) (h : FiresAt tr j .concurrent) : ¬ P_concurrent_consistent tr := by
   obtain ⟨r, obs, hj, hf⟩ := h
-  rcases monStep_some hf with ⟨hc, _⟩ | ⟨k, i, _, ha⟩ | ⟨_, hs⟩ | ⟨hr, _, hn⟩
+  rcases monStep_kinds hf with ⟨hc, _⟩ | ⟨q, _, ha⟩ | ⟨iq, hiq, hic⟩ | ⟨_, hs⟩ | ⟨hr, _, hn⟩ | ⟨hc, _⟩
   · cases hc
   · rcases afterClause_kind ha with hc | hc | hc <;> cases hc
+  · rcases iterClause_kind hic with hc | hc | hc | hc | hc | hc <;> cases hc
   · rcases statClause_some hs with ⟨hc, _⟩ | ⟨_, _, _, hc, _⟩ <;> cases hc
   · intro hP; subst hr; exact hn (hP j obs hj)
+  · cases hc
 
 theorem sound_panicked (tr : Trace) (j : Nat) (h : FiresAt tr j .panicked) : ¬ P_no_panic tr := by
   obtain ⟨r, obs, hj, hf⟩ := h
-  rcases monStep_some hf with ⟨_, hne, hp⟩ | ⟨k, i, _, ha⟩ | ⟨_, hs⟩ | ⟨_, hc, _⟩
-  · intro hP; exact hP j r obs hj hne hp
+  rcases monStep_kinds hf with ⟨_, ⟨hne, hp⟩ | ⟨q, hq, hp⟩⟩ | ⟨q, _, ha⟩ | ⟨iq, hiq, hic⟩ | ⟨_, hs⟩ | ⟨_, hc, _⟩ | ⟨hc, _⟩
+  · intro hP; exact (hP j r obs hj).1 hne hp
+  · intro hP; exact (hP j r obs hj).2 q hq hp
   · rcases afterClause_kind ha with hc | hc | hc <;> cases hc
+  · rcases iterClause_kind hic with hc | hc | hc | hc | hc | hc <;> cases hc
   · rcases statClause_some hs with ⟨hc, _⟩ | ⟨_, _, _, hc, _⟩ <;> cases hc
+  · cases hc
   · cases hc
 
 /-- **monitor_sound.** Whatever clause the monitor run reports, the corresponding clause of the
@@ -372,6 +918,10 @@ theorem monitor_sound (tr : Trace) (j : Nat) (cl : Clause) (h : runMon tr = some
   | badStat => exact sound_badStat tr j hf
   | concurrent => exact sound_concurrent tr j hf
   | panicked => exact sound_panicked tr j hf
+  | iterShort => exact sound_iterShort tr j hf
+  | ctxErrLive => exact sound_ctxErrLive tr j hf
+  | iterLocked => exact sound_iterLocked tr j hf
+  | badIter => exact sound_badIter tr j hf
 
 /-! ## Completeness -/
 
@@ -409,48 +959,214 @@ theorem afterClause_none {m : MState} {k : Key} {i : Int} {obs : Obs} (h : after
       · right; exact ⟨hp, by assumption⟩
       · cases h
 
-theorem monStep_query_none {m : MState} {r : Rec} {obs : Obs} {k : Key} {i : Int}
-    (h : (monStep m r obs).2 = none) (hq : queryOf r = some (k, i)) : afterClause m k i obs = none := by
+/-- The iteration clause silent, read. -/
+theorem iterClause_none {m : MState} {k : Key} {i : Int} {cm : CtxMode} {stop : Option Nat} {t : Term}
+    {items : List String} (h : iterClause m k i cm stop t items = none) :
+    t ≠ .locked ∧ (-1 ≤ i →
+      (t = .ctx → ∃ c, cm.point = some c ∧ c ≤ items.length) ∧
+      (m.spec.lookup k = none → items = [] ∧ (t = .unknown ∨ t = .ctx)) ∧
+      (∀ log, m.spec.lookup k = some log →
+        Allowed (log.drop (i + 1).toNat) stop t items ∧
+        (t = .fin → items <+: log.drop (i + 1).toNat → items = log.drop (i + 1).toNat) ∧
+        (t = .purged → (i + 1).toNat < log.length))) := by
+  simp only [iterClause] at h
+  split at h
+  · cases h
+  · rename_i hnl
+    refine ⟨hnl, fun hi => ?_⟩
+    have hn : ¬ i < -1 := by omega
+    simp only [hn, if_false] at h
+    cases hl : m.spec.lookup k with
+    | none =>
+      rw [hl] at h; simp only [] at h
+      refine ⟨?_, fun _ => ?_, (fun log hx => by cases hx)⟩
+      · intro ht
+        simp only [ht, if_true] at h
+        cases hp : cm.point with
+        | none => rw [hp] at h; cases h
+        | some c =>
+          rw [hp] at h; simp only [] at h
+          split at h
+          · exact ⟨c, rfl, by assumption⟩
+          · cases h
+      · split at h
+        · rename_i ht
+          cases hp : cm.point with
+          | none => rw [hp] at h; cases h
+          | some c =>
+            rw [hp] at h; simp only [] at h
+            split at h
+            · split at h
+              · exact ⟨by assumption, .inr ht⟩
+              · cases h
+            · cases h
+        · split at h
+          · rename_i hu; exact ⟨hu.2, .inl hu.1⟩
+          · cases h
+    | some log =>
+      rw [hl] at h; simp only [] at h
+      cases t with
+      | locked => exact absurd rfl hnl
+      | fin =>
+        simp only [] at h
+        split at h
+        · rename_i he
+          refine ⟨(fun hc => by cases hc), (fun hx => by cases hx), fun log' hx => ?_⟩
+          cases hx
+          exact ⟨.inl ⟨rfl, he⟩, fun _ _ => he, (fun hc => by cases hc)⟩
+        · split at h <;> cases h
+      | broke =>
+        simp only [] at h
+        cases stop with
+        | none => cases h
+        | some n =>
+          simp only [] at h
+          split at h
+          · rename_i hn
+            refine ⟨(fun hc => by cases hc), (fun hx => by cases hx), fun log' hx => ?_⟩
+            cases hx
+            exact ⟨.inr (.inl ⟨rfl, n, rfl, hn⟩), (fun hc => by cases hc), (fun hc => by cases hc)⟩
+          · cases h
+      | purged =>
+        simp only [] at h
+        split at h
+        · rename_i he
+          split at h
+          · cases h
+          · rename_i hne
+            refine ⟨(fun hc => by cases hc), (fun hx => by cases hx), fun log' hx => ?_⟩
+            cases hx
+            refine ⟨.inr (.inr (.inl ⟨rfl, he⟩)), (fun hc => by cases hc), fun _ => ?_⟩
+            have : log.drop (i + 1).toNat ≠ [] := fun e => hne (by rw [e]; rfl)
+            rw [Ne, List.drop_eq_nil_iff] at this; omega
+        · cases h
+      | ctx =>
+        simp only [] at h
+        cases hp : cm.point with
+        | none => rw [hp] at h; cases h
+        | some c =>
+          rw [hp] at h; simp only [] at h
+          split at h
+          · rename_i hle
+            split at h
+            · rename_i hpre
+              refine ⟨fun _ => ⟨c, rfl, hle⟩, (fun hx => by cases hx), fun log' hx => ?_⟩
+              cases hx
+              exact ⟨.inr (.inr (.inr ⟨rfl, isPrefixOf_iff.1 hpre⟩)), (fun hc => by cases hc), (fun hc => by cases hc)⟩
+            · cases h
+          · cases h
+      | unknown => cases h
+      | error => cases h
+      | goesOn => cases h
+
+/-- A silent record, read. -/
+theorem monStep_none {m : MState} {r : Rec} {obs : Obs} (h : (monStep m r obs).2 = none) :
+    (∀ q, q ∈ queries r obs → opClause (((opsOf r).take q.off).foldl bookOp m) (.after q.k q.i) q.obs = none) ∧
+    (∀ iq, iterOf r obs = some iq → iterClause m iq.k iq.i iq.cm iq.stop iq.t iq.items = none) ∧
+    (opsOf r ≠ [] → obs ≠ .panic) ∧ IterReadable r obs := by
   cases r with
   | op o =>
-    cases o <;> simp only [queryOf] at hq <;> try cases hq
-    simp only [monStep, opClause] at h
-    split at h
-    · cases h
-    · exact h
-  | afteri k' i' k2 p =>
-    simp only [queryOf, Option.some.injEq, Prod.mk.injEq] at hq
-    obtain ⟨rfl, rfl⟩ := hq
-    simp only [monStep, opClause] at h
-    split at h
-    · cases h
-    · exact h
-  | stat => cases hq
-  | concurrent => cases hq
+    have hp : obs ≠ .panic := by
+      intro hx; subst hx; cases o <;> simp [monStep, opClause] at h
+    refine ⟨?_, (fun iq hq => by cases hq), fun _ => hp, trivial⟩
+    intro q hq
+    cases o with
+    | after k i =>
+      simp only [queries, List.mem_singleton] at hq; subst hq
+      exact h
+    | _ => simp [queries] at hq
+  | afteri k i k2 p =>
+    have hp : obs ≠ .panic := by
+      intro hx; subst hx; simp [monStep, opClause] at h
+    refine ⟨?_, (fun iq hq => by cases hq), fun _ => hp, trivial⟩
+    intro q hq
+    simp only [queries, List.mem_singleton] at hq; subst hq
+    exact h
+  | iter k i cm stop script =>
+    simp only [monStep] at h
+    cases obs with
+    | iter t items nested =>
+      simp only [] at h
+      cases hc : iterClause m k i cm stop t items with
+      | some cl' => rw [hc] at h; cases h
+      | none =>
+        rw [hc] at h; simp only [] at h
+        obtain ⟨h1, h2⟩ := nestedClause_none m script [.after k i] nested h
+        refine ⟨fun q hq => h2 q hq, ?_, (fun _ hx => by cases hx), .inr ⟨t, items, nested, rfl, .inr h1⟩⟩
+        intro iq hq
+        simp only [iterOf, Option.some.injEq] at hq
+        subst hq
+        exact hc
+    | panic => cases h
+    | ok => cases h
+    | err => cases h
+    | items l => cases h
+    | purged => cases h
+    | unknown => cases h
+    | partialThenPurged => cases h
+    | partialThenError => cases h
+    | num n => cases h
+    | stat a b c => cases h
+    | consistent => cases h
+    | other x => cases h
+  | stat => exact ⟨fun q hq => by simp [queries] at hq, (fun iq hq => by cases hq), fun hx => absurd rfl hx, trivial⟩
+  | concurrent => exact ⟨fun q hq => by simp [queries] at hq, (fun iq hq => by cases hq), fun hx => absurd rfl hx, trivial⟩
 
 /-- **monitor_complete.** If the monitor run is silent on a trace, every clause of the property holds on it. -/
 theorem monitor_complete (tr : Trace) (h : runMon tr = none) (cl : Clause) : P_of cl tr := by
   have loc := runMonFrom_none tr {} 0 h
+  have qnone : ∀ j r obs q, tr[j]? = some (r, obs) → q ∈ queries r obs → -1 ≤ q.i →
+      (specLog q.k (histQ tr j r q.off) = none → q.obs = .unknown) ∧
+      (∀ log, specLog q.k (histQ tr j r q.off) = some log →
+        (q.obs = .purged ∧ (q.i + 1).toNat < log.length) ∨
+        (q.obs ≠ .purged ∧ q.obs = .items (log.drop (q.i + 1).toNat))) := by
+    intro j r obs q hj hq hi
+    have := afterClause_none (opClause_after_none ((monStep_none (loc j r obs hj)).1 q hq)).2 hi
+    rw [spec_atQ] at this
+    exact this
+  have inone : ∀ j r obs iq, tr[j]? = some (r, obs) → iterOf r obs = some iq →
+      iq.t ≠ .locked ∧ (-1 ≤ iq.i →
+        (iq.t = .ctx → ∃ c, iq.cm.point = some c ∧ c ≤ iq.items.length) ∧
+        (specLog iq.k (hist tr j) = none → iq.items = [] ∧ (iq.t = .unknown ∨ iq.t = .ctx)) ∧
+        (∀ log, specLog iq.k (hist tr j) = some log →
+          Allowed (log.drop (iq.i + 1).toNat) iq.stop iq.t iq.items ∧
+          (iq.t = .fin → iq.items <+: log.drop (iq.i + 1).toNat → iq.items = log.drop (iq.i + 1).toNat) ∧
+          (iq.t = .purged → (iq.i + 1).toNat < log.length))) := by
+    intro j r obs iq hj hq
+    have := iterClause_none ((monStep_none (loc j r obs hj)).2.1 iq hq)
+    rw [(state_at tr j).1 iq.k] at this
+    exact this
   cases cl with
   | afterUnknown =>
-    intro j r obs k i hj hq hi hl
-    have := (afterClause_none (monStep_query_none (loc j r obs hj) hq) hi).1
-    rw [(state_at tr j).1 k] at this
-    exact this hl
+    refine ⟨fun j r obs q hj hq hi hl => (qnone j r obs q hj hq hi).1 hl, ?_⟩
+    intro j r obs iq hj hq _ hi hl
+    exact ((inone j r obs iq hj hq).2 hi).2.1 hl
   | afterWrong =>
-    intro j r obs k i log hj hq hi hl
-    have := (afterClause_none (monStep_query_none (loc j r obs hj) hq) hi).2 log
-    rw [(state_at tr j).1 k] at this
-    rcases this hl with ⟨h1, _⟩ | ⟨_, h2⟩
-    · exact .inl h1
-    · exact .inr h2
+    refine ⟨fun j r obs q log hj hq hi hl => ?_, ?_⟩
+    · rcases (qnone j r obs q hj hq hi).2 log hl with ⟨h1, _⟩ | ⟨_, h2⟩
+      · exact .inl h1
+      · exact .inr h2
+    · intro j r obs iq log hj hq _ hi hl
+      exact (((inone j r obs iq hj hq).2 hi).2.2 log hl).1
   | afterPurgedNothing =>
-    intro j r obs k i log hj hq hi hl hp
-    have := (afterClause_none (monStep_query_none (loc j r obs hj) hq) hi).2 log
-    rw [(state_at tr j).1 k] at this
-    rcases this hl with ⟨_, h1⟩ | ⟨h2, _⟩
-    · exact h1
-    · exact absurd hp h2
+    refine ⟨fun j r obs q log hj hq hi hl hp => ?_, ?_⟩
+    · rcases (qnone j r obs q hj hq hi).2 log hl with ⟨_, h1⟩ | ⟨h2, _⟩
+      · exact h1
+      · exact absurd hp h2
+    · intro j r obs iq log hj hq _ hi hl ht
+      exact (((inone j r obs iq hj hq).2 hi).2.2 log hl).2.2 ht
+  | iterShort =>
+    intro j r obs iq log hj hq hi hl ht hpre
+    exact (((inone j r obs iq hj hq).2 hi).2.2 log hl).2.1 ht hpre
+  | ctxErrLive =>
+    intro j r obs iq hj hq hi ht
+    exact ((inone j r obs iq hj hq).2 hi).1 ht
+  | iterLocked =>
+    intro j r obs iq hj hq
+    exact (inone j r obs iq hj hq).1
+  | badIter =>
+    intro j r obs hj
+    exact (monStep_none (loc j r obs hj)).2.2.2
   | bytesBound =>
     intro j n m r hj
     have := loc j _ _ hj
@@ -473,14 +1189,9 @@ theorem monitor_complete (tr : Trace) (h : runMon tr = none) (cl : Clause) : P_o
     · assumption
     · cases this
   | panicked =>
-    intro j r obs hj hne hp
-    have := loc j _ _ hj
-    subst hp
-    cases r with
-    | op o => simp [monStep, opClause] at this
-    | afteri k i k2 p => simp [monStep, opClause] at this
-    | stat => exact hne rfl
-    | concurrent => exact hne rfl
+    intro j r obs hj
+    have hn := monStep_none (loc j r obs hj)
+    exact ⟨hn.2.2.1, fun q hq => (opClause_after_none (hn.1 q hq)).1⟩
 
 /-- The predicates are satisfiable: they hold on the model's answers to ANY record sequence. -/
 theorem model_satisfies_P (rs : List Rec) (cl : Clause) :
@@ -493,6 +1204,7 @@ theorem model_satisfies_P (rs : List Rec) (cl : Clause) :
 section witnesses
 private def kA : Key := ("s", "a")
 private def pre : Trace := [(.op (.setMax 4), .ok), (.op (.open kA), .ok), (.op (.append kA "x0102"), .ok)]
+private def pre2 : Trace := pre ++ [(.op (.append kA "x03"), .ok), (.op (.append kA "x"), .ok)]
 
 example : runMon (pre ++ [(.op (.after kA (-1)), .items ["x0102"]), (.stat, .stat 2 4 2)]) = none := by decide
 example : runMon (pre ++ [(.op (.after ("s", "b") 0), .items [])]) = some (3, .afterUnknown) := by decide
@@ -507,6 +1219,30 @@ example : runMon (pre ++ [(.concurrent, .other "nBytes=3 retained=2")]) = some (
 example : runMon (pre ++ [(.op (.append kA "x03"), .panic)]) = some (3, .panicked) := by decide
 example : runMon (pre ++ [(.afteri kA (-1) kA "x03", .items ["x0102"]), (.op (.after kA 0), .items ["x03"])]) = none := by
   decide
+-- the iteration protocol: complete; broken by the consumer; calls and a second iteration from inside; a context
+-- error once the context is done
+example : runMon (pre2 ++ [(.iter kA (-1) .live none [], .iter .fin ["x0102", "x03", "x"] [])]) = none := by decide
+example : runMon (pre2 ++ [(.iter kA 0 (.cancel 1) (some 1) [], .iter .broke ["x03"] [])]) = none := by decide
+example : runMon (pre2 ++ [(.iter kA 0 .live none [.append kA "x04", .after kA 0, .closed "s", .after kA 0],
+    .iter .fin ["x03", "x"] [.items ["x03", "x", "x04"], .unknown])]) = none := by decide
+example : runMon (pre2 ++ [(.iter kA (-1) (.deadline 2) none [], .iter .ctx ["x0102", "x03"] [])]) = none := by decide
+-- C20-m12: the context ends after the 2nd item and the iterator just returns
+example : runMon (pre2 ++ [(.iter kA (-1) (.cancel 2) none [], .iter .fin ["x0102", "x03"] [])]) = some (5, .iterShort) := by
+  decide
+example : runMon (pre2 ++ [(.iter kA (-1) .live none [], .iter .ctx ["x0102"] [])]) = some (5, .ctxErrLive) := by decide
+example : runMon (pre2 ++ [(.iter kA (-1) (.cancel 2) none [], .iter .ctx ["x0102"] [])]) = some (5, .ctxErrLive) := by decide
+example : runMon (pre2 ++ [(.iter kA (-1) .live none [], .iter .locked [] [])]) = some (5, .iterLocked) := by decide
+example : runMon (pre2 ++ [(.iter kA (-1) .live none [.after kA 0], .iter .fin ["x0102", "x03", "x"] [])]) =
+    some (5, .badIter) := by decide
+-- an alias instead of a clone: the purge from inside the iteration blanks what is still to be delivered
+example : runMon (pre2 ++ [(.iter kA (-1) .live none [.setMax 1], .iter .fin ["x0102", "x", "x"] [])]) =
+    some (5, .afterWrong) := by decide
+example : runMon (pre2 ++ [(.iter kA (-1) .live (some 2) [], .iter .broke ["x0102"] [])]) = some (5, .afterWrong) := by decide
+example : runMon (pre2 ++ [(.iter kA (-1) .live none [], .iter .goesOn [] [])]) = some (5, .afterWrong) := by decide
+example : runMon (pre2 ++ [(.iter kA 2 .live none [], .iter .purged [] [])]) = some (5, .afterPurgedNothing) := by decide
+example : runMon (pre2 ++ [(.iter ("s", "b") 0 .live none [], .iter .fin [] [])]) = some (5, .afterUnknown) := by decide
+example : runMon (pre2 ++ [(.iter kA 0 .live none [.after kA 0], .iter .fin ["x03", "x"] [.panic])]) =
+    some (5, .panicked) := by decide
 end witnesses
 
 end EventStore
